@@ -6,11 +6,11 @@
 (* group with members, headings and plain remarks; one or two operations   *)
 (* applied; every packet evaluated.                                        *)
 (***************************************************************************)
-EXTENDS AclSem, TLC
+EXTENDS AclSem, TLC, Json
 
-CONSTANTS MaxItems, MaxDepth
-VARIABLES items, prev, last, depth
-vars == <<items, prev, last, depth>>
+CONSTANTS MaxItems, MaxDepth, Gen
+VARIABLES items, prev, last, depth, seed, ops
+vars == <<items, prev, last, depth, seed, ops>>
 
 FreshMC == <<"*", 0>>
 any == [k |-> "wild", w |-> AnyW, name |-> "", mem |-> <<>>]
@@ -40,15 +40,16 @@ WithIds(l) == [i \in 1..Len(l) |-> [l[i] EXCEPT !.id = <<l[i].id, i>>]]
 Packets == {p \in Packet({1, 6, 17}, {{}}) : p.da = <<0,0>> /\ p.sp = 0 /\ (p.proto = 1 => p.dp = 0)}
 SameDecisions(x, y) == \A p \in Packets : DecisionOf(x, p) = DecisionOf(y, p)
 
-Init == \E l \in Lists : items = WithIds(l) /\ prev = items /\ last = "init" /\ depth = 0
-Do(a, new) == items' = new /\ prev' = items /\ last' = a /\ depth' = depth + 1
+Init == \E l \in Lists : items = WithIds(l) /\ prev = items /\ last = "init" /\ depth = 0 /\ seed = [i \in 1..Len(l) |-> l[i].id] /\ ops = <<>>
+Do(a, new) == items' = new /\ prev' = items /\ last' = a /\ depth' = depth + 1 /\ seed' = seed /\ ops' = Append(ops, a)
 
 Pre == "= "
 UngroupPorts == Do("UngroupPorts", UngroupPortsItems(items))
 GroupA       == Do("Group", GroupItems(items, Pre))
 Ungroup      == Do("Ungroup", Flatten(items))
 DeleteShadow == Do("DeleteShadow", DeleteShadowLeaves(items, {}))
-Next == depth < MaxDepth /\ (UngroupPorts \/ GroupA \/ Ungroup \/ DeleteShadow)
+Reverse      == Gen /\ Do("Reverse", [k \in 1..Len(items) |-> items[Len(items) + 1 - k]])
+Next == depth < MaxDepth /\ (UngroupPorts \/ GroupA \/ Ungroup \/ DeleteShadow \/ Reverse)
 Spec == Init /\ [][Next]_vars
 
 AllSplitsSafe(x) == \A k \in 1..Len(Flatten(x)) : IsAce(Flatten(x)[k]) => SplitKeepsMeaning(Flatten(x)[k].f)
@@ -80,4 +81,6 @@ P_C15 ==
                        /\ SameDecisions(prev, items) \/ ~HeadingsDistinct(prev, Pre)
                        /\ Tcam(items) = Tcam(prev)
   /\ last = "Ungroup" => items = Flatten(prev) /\ Tcam(items) = Tcam(prev)
+View == <<items, prev, last, depth>>
+GenHist == (Gen /\ depth = MaxDepth) => PrintT(ToJson([seed |-> seed, ops |-> ops]))
 =============================================================================
